@@ -178,6 +178,18 @@ func genC19(env *core.Env, emit func(core.Case)) {
 				dmu.Lock()
 				h3seen = append(h3seen, req)
 				dmu.Unlock()
+				// what an HTTP/3 round-tripper does next: Dial over UDP with the request's context, which
+				// carries the record set Transport selected for this protocol (every attempt fails here)
+				qd := &ech.Dialer[*tls.Conn]{MaxConcurrency: 1, ConcurrencyDelay: 1, Timeout: time.Second}
+				qd.DialFunc = func(ctx context.Context, network, addr string, tc *tls.Config) (*tls.Conn, error) {
+					if ctx.Err() == nil {
+						dmu.Lock()
+						dcalls = append(dcalls, dcall{addr, tc.ServerName, bytes.Clone(tc.EncryptedClientHelloConfigList)})
+						dmu.Unlock()
+					}
+					return nil, errors.New("scripted: unreachable")
+				}
+				qd.Dial(req.Context(), "udp", req.URL.Host, &tls.Config{RootCAs: pk.pool})
 				return &http.Response{StatusCode: 200, Body: io.NopCloser(strings.NewReader("h3")), Header: http.Header{}, Request: req}, nil
 			})
 			tr.HTTP3Transport = roundTripFunc(func(req *http.Request) (*http.Response, error) {
@@ -280,7 +292,7 @@ func genC19(env *core.Env, emit func(core.Case)) {
 					w = fmt.Sprintf("%s: HTTP/3 used = %v, but by SvcPriority the most-preferred usable record of %s offers h3 = %v (records as served: %s)", rawURL, obsE["h3"] == "1", host, wantH3, shapes[host])
 				}
 			}
-			if obsE["h3"] == "0" && obsE["plain"] == "0" {
+			if obsE["plain"] == "0" {
 				dmu.Lock()
 				var tl []string
 				for _, c := range dcalls {
@@ -357,6 +369,10 @@ func genC19(env *core.Env, emit func(core.Case)) {
 			}
 			if resp != nil && resp.Request != req && w == "" {
 				w = "response is not bound to the caller's original request"
+			}
+			if req != nil && req.URL.String() != rawURL && w == "" {
+				// the request the response is bound to must still be the one the caller made
+				w = fmt.Sprintf("the caller's request was for %s; after RoundTrip its URL reads %s", rawURL, req.URL.String())
 			}
 			if cerr == nil && scheme == "http" && len(res.HTTPS) == 0 && w == "" {
 				w = "an http request without HTTPS records was carried out (plaintext?)"
